@@ -701,7 +701,20 @@ func ruleVendoredEqualsUpstream(c *Ctx, rule string, v vendored) {
 	}
 	sort.Strings(names)
 	same := 0
-	for _, n := range names {
+	for _, n0 := range names {
+		n := n0
+		// a documented local function under a new name (recognised by signature and body, inline.go)
+		short := n
+		prefix := ""
+		if i := strings.LastIndex(n, "."); i >= 0 {
+			prefix, short = n[:i+1], n[i+1:]
+		}
+		if old, ok := w.aliasShort[short]; ok {
+			if _, allowed := v.allow[prefix+old]; allowed {
+				lf[prefix+old] = lf[n]
+				n = prefix + old
+			}
+		}
 		key := v.file + "|" + n
 		if reason, ok := v.allow[n]; ok {
 			if want, fine := v.allowDiff[n]; fine {
@@ -1044,6 +1057,10 @@ func ruleNodeOwnership(c *Ctx, rule string) {
 			n++
 			key := "storage." + name + "." + fld.Name() + "|holds-page"
 			_, ok := allowed[name+"."+fld.Name()]
+			if !ok && !pinnedTypes["storage."+name] && len(pinnedTypes) > 0 {
+				c.Undecided(rule, key, "the new type %s holds a page object: whether it only lives for the duration of one call (harmless) or outlives an eviction is not decided", name)
+				continue
+			}
 			c.Check(ok, rule, key, fld.Pos(), "allowed holder: "+allowed[name+"."+fld.Name()], name+"."+fld.Name()+" keeps a page object outside the cache: after the page is evicted the holder keeps changing an orphan that is never flushed, so results depend on the cache size")
 		}
 	}
